@@ -4,7 +4,7 @@ Engine A: closure of the promotion automaton with the real transition functions
           (a) promote_with on EVERY DataType(kind, nullable) x symbol (x symbol) combination,
           (b) breadth-first product of (specification state, implementation output) over words,
               with a well-definedness (conformance) check every time a state is re-reached.
-Engine E: every word of length <= L over the 16-symbol type alphabet, two representatives per
+Engine E: every word of length <= L over the 17-symbol type alphabet, two representatives per
           symbol, through infer_dtype and Vector(values).schema().
 Part T  : 'typed by the same rule': arithmetic / join / aggregate / window / CSV result columns
           must carry expected_dtype(their own values).
@@ -22,7 +22,7 @@ from mc.core import Agg, V
 from mc.models import expected_dtype, join_kinds
 
 RULE = ("A: all (DataType, symbol[, symbol]) promotion combinations + BFS product automaton over words; "
-        "E: every word over 16 type symbols (incl. Fraction and Decimal: numbers that are not on the ladder) up to the length bound, 2 representatives; "
+        "E: every word over 17 type symbols (incl. Fraction and Decimal - numbers that are not on the ladder - and a subclass of a user class) up to the length bound, 2 representatives; "
         "non-trivial = word mixes >=2 distinct symbols (order/None-position can matter)")
 ASSUMPTIONS = [
     "type alphabet: None,bool,int,float,complex,str,bytes,date,datetime,list,dict,tuple and two unrelated user classes; "
@@ -45,8 +45,15 @@ class B:
     def __hash__(self): return hash(("B", self.n))
 
 
+class A2(A):
+    """a subclass of A: an A2 IS an A for isinstance(), yet a mixture of A and A2 is a mixture of two kinds - in either order"""
+    def __repr__(self): return f"A2({self.n})"
+    def __eq__(self, o): return type(o) is A2 and o.n == self.n
+    def __hash__(self): return hash(("A2", self.n))
+
+
 SYMS = ["None", "bool", "int", "float", "complex", "str", "bytes", "date", "datetime",
-        "list", "dict", "tuple", "A", "B", "Fraction", "Decimal"]
+        "list", "dict", "tuple", "A", "B", "Fraction", "Decimal", "A2"]
 REPS = {
     "None": (None, None),
     "bool": (True, False),
@@ -65,10 +72,11 @@ REPS = {
     # numbers.Number subclasses that are NOT on the bool<int<float<complex ladder: "any other mixture yields object"
     "Fraction": (Fraction(1, 2), Fraction(3, 1)),
     "Decimal": (Decimal("1.5"), Decimal(2)),
+    "A2": (A2(1), A2(2)),
 }
 KIND = {"bool": bool, "int": int, "float": float, "complex": complex, "str": str, "bytes": bytes,
         "date": date, "datetime": datetime, "list": list, "dict": dict, "tuple": tuple, "A": A, "B": B,
-        "Fraction": Fraction, "Decimal": Decimal}
+        "Fraction": Fraction, "Decimal": Decimal, "A2": A2}
 
 
 def kname(k):
@@ -483,14 +491,27 @@ def unit_typed(unit):
         for lk in keysets:
             for rk in keysets:
                 for pk, pv in pay.items():
+                  for hist in ("fresh", "to_object", "wider-dtype-narrow-values", "none-row-sliced-away"):
+                    # the SOURCE column's dtype may be wider than its values (history): the result is typed by its own values
                     try:
-                        L = Table({"k": lk, "lp": pv[:len(lk)]})
+                        lp = Vector(list(pv[:len(lk)]), name="lp")
+                        if hist == "to_object":
+                            lp = lp.to_object(); lp.name = "lp"
+                        elif hist == "wider-dtype-narrow-values":
+                            if not all(type(x) is int for x in pv[:len(lk)]):
+                                continue
+                            lp = Vector([0.5] * len(lk), name="lp")
+                            for i_, x_ in enumerate(pv[:len(lk)]):
+                                lp[i_] = x_
+                        L = Table([Vector(list(lk), name="k"), lp])
+                        if hist == "none-row-sliced-away":
+                            L = Table([Vector(list(lk) + [None], name="k"), Vector(list(pv[:len(lk)]) + [None], name="lp")])[0:len(lk)]
                         R = Table({"k2": rk, "rp": pv[:len(rk)]})
                     except Exception as e:
-                        agg.violation(V("Table.construct", "raises-" + type(e).__name__, {"keys": lk, "payload": pk}))
+                        agg.violation(V("Table.construct", "raises-" + type(e).__name__, {"keys": lk, "payload": pk, "history": hist}))
                         continue
                     for meth in ("inner_join", "join", "full_join"):
-                        case = {"part": "join", "method": meth, "left_keys": lk, "right_keys": rk, "payload": pk}
+                        case = {"part": "join", "method": meth, "left_keys": lk, "right_keys": rk, "payload": pk, "left_table_history": hist}
                         try:
                             res = getattr(L, meth)(R, "k", "k2", expect="many_to_many")
                         except Exception as e:
@@ -526,6 +547,62 @@ def unit_typed(unit):
                     agg.nontrivial += 1
                     for c in res._underlying:
                         check_col(agg, meth, c, case)
+    elif what == "assign":
+        # "promoting a dtype with a value never narrows it, never drops nullability": the same for a VECTOR promoted by an in-place write
+        from datetime import date as _d, datetime as _dt
+        D0, T0 = _d(2020, 1, 2), _dt(2021, 3, 4, 5, 6)
+        ladder = [("bool", [True, False, True]), ("int", [1, 2, 3]), ("float", [0.5, 1.5, 2.5]), ("complex", [1j, 2j, 3j]), ("date", [D0, D0, D0]), ("datetime", [T0, T0, T0])]
+        wider = {"int": [2.5, 1j], "float": [1j], "date": [T0], "bool": [], "complex": [], "datetime": []}
+        for kname, base in ladder:
+            for w in wider[kname] + [None]:
+                for none_pos in (None, 0, 2):
+                    for hist in ("as-built", "none-overwritten-first"):
+                        for key_form in ("int", "slice", "mask", "index-list", "table-cell", "column-view"):
+                            for with_none_value in (False, True):
+                                vals = list(base)
+                                if none_pos is not None:
+                                    vals[none_pos] = None
+                                if w is None and not with_none_value:
+                                    continue
+                                try:
+                                    v = Vector(list(vals)); t = None
+                                    if key_form in ("table-cell", "column-view"):
+                                        t = Table([Vector(list(vals), name="a"), Vector([7, 8, 9], name="b")])
+                                        v = t["a"]
+                                    if hist == "none-overwritten-first" and none_pos is not None:
+                                        v[none_pos] = base[none_pos]          # the column's only None is gone; the flag stays
+                                    before = v.schema()
+                                    newvals = ([w, None] if with_none_value else [w, w]) if w is not None else [None, None]
+                                    if key_form == "int":
+                                        v[1] = newvals[0]
+                                    elif key_form == "slice":
+                                        v[0:2] = newvals[::-1]
+                                    elif key_form == "mask":
+                                        v[[True, True, False]] = newvals
+                                    elif key_form == "index-list":
+                                        v[[1, 0]] = newvals
+                                    elif key_form == "table-cell":
+                                        t[1, "a"] = newvals[0]
+                                        v = t["a"]
+                                    else:
+                                        v[1] = newvals[0]
+                                        v = t["a"]
+                                except Exception as e:
+                                    agg.skipped["write-refused-" + type(e).__name__] += 1
+                                    continue
+                                agg.evals += 1; agg.transitions += 1; agg.states += 1; agg.nontrivial += 1; agg.compared += 1
+                                after = v.schema()
+                                cur = list(v._underlying)
+                                want_kind = join_kinds([before.kind] + ([type(w)] if w is not None else []))
+                                want_null = bool(before.nullable) or any(x is None for x in cur)
+                                case = {"part": "assign", "column": vals, "history": hist, "key_form": key_form, "written": [repr(x) for x in newvals[:1 if key_form in ("int", "table-cell", "column-view") else 2]],
+                                        "dtype_before": fmt(dt_pair(before)), "values_after": [repr(x) for x in cur]}
+                                if after is None or after.kind is not want_kind:
+                                    agg.violation(V("setitem.promotion", "kind-after-promotion-wrong", case, fmt((want_kind, want_null)), fmt(dt_pair(after)) if after is not None else None))
+                                elif bool(after.nullable) != want_null:
+                                    agg.violation(V("setitem.promotion", "promotion-drops-nullability" if want_null else "nullable-without-reason", case, fmt((want_kind, want_null)), fmt(dt_pair(after))))
+                                else:
+                                    agg.outcomes["T-agree"] += 1
     elif what == "csv":
         cells = ["", "1", "2.5", "x", " "]
         for n in (1, 2, 3):
@@ -555,7 +632,7 @@ def check(ctx):
     maxlen = ctx.pick(5, 6)
     units = [((a, b), maxlen) for a in SYMS for b in SYMS] + [((a,), 1) for a in SYMS] + [((), 0)]
     parts = core.pmap(unit_words, units)
-    tunits = [("arith", o) for o in OPS] + [("join",), ("agg",), ("csv",)]
+    tunits = [("arith", o) for o in OPS] + [("join",), ("agg",), ("csv",), ("assign",)]
     parts += core.pmap(unit_typed, tunits)
     parts += core.pmap(unit_long_words, [("long", a) for a in SYMS])
     for p in parts:
